@@ -374,6 +374,8 @@ class LibMap:
         f = "vf_map_%s_" % tag
         if name in ("size", "empty", "clear"):
             return "%s%s(%s)" % (f, name, p)
+        if name == "erase" and len(args) == 1 and self.mapped(em, args[0]) == "struct vf_pair_%s*" % tag:
+            return "%serase_it(%s, %s)" % (f, p, em.E(args[0]))  # erase(iterator): the entry the iterator designates
         if name in ("find", "count", "contains", "erase", "at") and len(args) == 1:
             r = "%s%s(%s, %s)" % (f, name, p, em.E(args[0]))
             return "(*%s)" % r if name == "at" else r
